@@ -10,6 +10,7 @@ package main
 import (
 	"fmt"
 	"go/types"
+	"os"
 	"sort"
 	"strings"
 
@@ -460,11 +461,13 @@ func driveC18(w *World, c *Checker) {
 	c.Functions["<every function of github.com/alttpo/snes/...>"] = fmt.Sprintf("%d functions under the frame condition", nFn)
 }
 
-
 // ---- C14 driver: nothing in the repository READS the bus debug fields the disassembler writes ----
 func init() { drivers["C14"] = driveC14 }
 
 func driveC14(w *World, c *Checker) {
+	if os.Getenv("SNESVC_ONLY") == "" && os.Getenv("SNESVC_OPS") == "" {
+		boundedC14(w, c)
+	}
 	n := 0
 	var bad []string
 	for fn := range ssautil.AllFunctions(w.prog) {
